@@ -26,6 +26,12 @@ P = {
          "Untaint precedes and gates the cloud request, which is exactly N − untainted ≥ 1; newest-first over all tainted nodes; no stale cached desired capacity is read for a decision within one scan.", "§4 C07"),
  "C08": ("other", "comparator normal form + collect-loop / sort-dominates-loop / bounded-accumulator recognisers",
          "The taint loop visits a complete oldest-first sorted copy of the untainted list in order and skips a node only when its write failed (modulo sort.Sort).", "§4 C08"),
+ "C17": ("other", "linear-fact entailment before every write-reaching call + struct-literal field provenance + head/tail chunking-loop recogniser",
+         "No AWS write before δ ≥ 1 ∧ TargetSize+δ ≤ MaxSize; one absolute SetDesiredCapacity(TargetSize+δ); fleet request total = min = δ; every acquired id is attached in exactly one call of ≤ 20 ids.", "§4 C17"),
+ "C18": ("other", "must-call-before-error-exit on the CFG with the argument checked against the chunking invariant + index-stepping loop recogniser with per-iteration accumulator + error-propagation chain",
+         "Every error exit of the attach step terminates exactly the not-yet-attached ids, the success exit none; terminate calls carry ≤ 1000 ids of the current batch; the failure reaches ScaleUp, which then takes no lock.", "§4 C18"),
+ "C19": ("other", "linear pre-check entailment + existential-search recognisers + dominance (cloud before Kubernetes) + type-preserving error propagation per frame",
+         "Terminate only after both minimum pre-checks and the membership test of that node, the matched instance with decrement; not-in-group is returned unchanged by every frame up to log.Fatal.", "§4 C19"),
  "C09": ("proof", "path-condition implication + interprocedural provenance of action arguments",
          "No action site can receive a node that was cordoned in the scan's snapshot, and capacity/counts come from the untainted list only.", "§4 C09"),
  "C10": ("proof", "path-condition implication + loop-shape recogniser + who-may-call",
